@@ -55,6 +55,15 @@ Definition arec_sync (self other : arec) : arec :=
   let sf := if s =? U32MAX then (1, 0) else if f =? U32MAX then (0, 1) else (s, f) in
   {| a_addr := a_addr self; a_s := fst sf; a_f := snd sf; a_seen := N.max (a_seen self) (a_seen other) |}.
 
+(* NOT the code: the same merge with plain `+=` on the u32 counters -- kept only for `sync_wrapping_refuted`:
+   the debug build panics, the release build wraps, when a counter of the file entry is near u32::MAX *)
+Definition arec_sync_unchecked (m : arith_mode) (self other : arec) : outcome arec :=
+  if a_seen self =? a_seen other then Ok self else
+  bind (add_w m U32 (a_s self) (a_s other)) (fun s =>
+  bind (add_w m U32 (a_f self) (a_f other)) (fun f =>
+  let sf := if s =? U32MAX then (1, 0) else if f =? U32MAX then (0, 1) else (s, f) in
+  Ok {| a_addr := a_addr self; a_s := fst sf; a_f := snd sf; a_seen := N.max (a_seen self) (a_seen other) |})).
+
 (* failure_rate() as u64, used as sort key.
    unfixed: `self.success_count + self.failure_count` in u32 *)
 Definition rate_key_unfixed (m : arith_mode) (r : arec) : outcome N :=
@@ -275,6 +284,10 @@ Definition step (cfg : config) (c : cache) (t : N * op) : cache :=
 Definition run (cfg : config) (ops : list (N * op)) (c : cache) : cache := fold_left (step cfg) ops c.
 
 Definition is_sync (o : op) : bool := match o with OpSync _ => true | _ => false end.
+
+(* NOT the code: a parse-failure log line that shows the first 64 bytes of the file by slicing the text --
+   kept only for `log_head_slice_refuted` (str slicing panics off a char boundary) *)
+Definition log_head (contents : string) : outcome string := str_slice contents 0 (N.min (slen contents) 64).
 
 (* ---- persistence.  file = None: no file (or unreadable); dec t = None: not a cache file *)
 Definition load_cache (dec : string -> option cache) (cfg : config) (now : N) (file : option string)
